@@ -29,6 +29,7 @@ def planarAngle (h : Array Rat) (j i : Nat) : Rat :=
   `splitt dt k ts…`                       → parts of `range n` as `a,b|c,d`
   `splitd thr k lens…`                    → parts
   `splits vmax k lens… k ts…`             → parts | `E_TRAJ`
+  `reduce n k ids…`                       → `reduce_to_ids` applied to `range n`
   `merge m (k stamps…)×m`                 → `order of positions ; order of orientations ; sorted stamps` -/
 def handle (op : String) (args : List String) : Option String :=
   match op, args with
@@ -78,6 +79,10 @@ def handle (op : String) (args : List String) : Option String :=
       match splitSpeedCuts lens ts v with
       | .error x => some (showErr x)
       | .ok cuts => some (showParts (slices (List.range ts.length) cuts))
+  | "reduce", n :: rest => do
+      let n ← n.toNat?
+      let (ids, _) ← readNatList rest
+      some (showNats (reduceIds (List.range n) ids))
   | "merge", m :: rest => do
       let m ← m.toNat?
       let rec go (k : Nat) (rest : List String) (off : Nat) (acc : List (Traj Nat Nat)) :
